@@ -76,6 +76,7 @@ type Ctx struct {
 	stores    map[string]storeInfo
 	ites      map[string][3]T // merged heaps: ite term -> (cond, then, else)
 	distinctGrp map[string]int
+	distinctPairs map[string]bool // "a|b": object ids required to differ by the precondition
 	paramIDs  map[string]bool
 	unfoldDepth int
 	frameActive bool
